@@ -1,6 +1,6 @@
 (* C16 — What the gateway reports about its schema is the schema it enforces. Statements only; proofs in Intro/ExecProofs.v. *)
 From Coq Require Import List String Bool Arith.
-From Pebbles Require Import Base.Json Intro.Schema Intro.Exec Intro.ExecProofs.
+From Pebbles Require Import Base.Json Intro.Schema Intro.Spec Intro.Remote Intro.RemoteProofs Intro.Exec Intro.ExecProofs Intro.Rebuild.
 Import ListNotations.
 Open Scope string_scope.
 
@@ -24,6 +24,18 @@ Theorem types_lists_every_type : forall s f a incl tn sub,
   match all_some (map (fun t => local_exec s f (NType (TNamed (td_name t))) sub) (s_types (base s))) with
   | Some js => Some (JObj [(a, JArr js)]) | None => None end.
 Proof. exact types_entries. Qed.
+
+(* "a standard client (including another gateway) can rebuild an equivalent schema from the standard introspection
+   query": for every schema the resolvers describe (roots named as the merger names them, unique type names, every
+   referenced type declared, kind-specific members only where the kind has them) whose user-defined part lies in
+   C15's domain, the answer to the query another pebbles gateway sends, decoded as remote.go decodes it and
+   reconstructed as remote.go reconstructs it, is exactly the schema without its built-ins (C16 composed with C15) *)
+Theorem another_gateway_rebuilds_the_schema_from_the_standard_query : forall (s : sch16) f,
+  ofType_levels + 6 < f -> schema_ok s -> inD15 (strip (base s)) ->
+  exists j a, local_exec s f NRoot std_query = Some j /\ dec_schema j = Some a /\ reconstruct a = ROk (strip (base s)).
+Proof. exact another_gateway_rebuilds_the_schema. Qed.
+Example rebuild_nonvacuous : schema_ok s_demo16 /\ inD15 (strip (base s_demo16)).
+Proof. exact demo16_in_domain. Qed.
 
 (* non-vacuity: a canonical schema with every kind, and a selection that the specification answers *)
 Definition s_demo : sch16 :=
@@ -63,3 +75,4 @@ Qed.
 Print Assumptions gateway_answers_as_the_specification_prescribes.
 Print Assumptions type_by_name_is_that_type.
 Print Assumptions types_lists_every_type.
+Print Assumptions another_gateway_rebuilds_the_schema_from_the_standard_query.
